@@ -290,7 +290,17 @@ func oracleC13(v *View, vd *Verdict) {
 				vd.Add("C13", "C13/extra-disconnect/"+lab, "session %s: %d DISCONNECTs sent after the client's own DISCONNECT", sv.Name, got)
 			}
 		case st.st == stActive || st.st == stAwake:
-			if got == 0 {
+			// "when it ends": a wake-up procedure that was in progress when the cause struck may still be
+			// completed (PINGRESP after the cause) — the client is asleep again when the session ends
+			backAsleep := false
+			if st.st == stAwake {
+				for _, e := range sv.Evs {
+					if e.Idx > c.idx && e.Kind == EvG2C && e.SNErr == nil && e.SN.Type == refsn.PINGRESP {
+						backAsleep = true
+					}
+				}
+			}
+			if got == 0 && !backAsleep {
 				vd.Add("C13", "C13/disconnect-not-sent/"+lab, "session %s: client was %s when %s happened but got no DISCONNECT", sv.Name, st.st, c.kind)
 			}
 		case st.st == stDisconnected && !st.everActive:
